@@ -31,6 +31,7 @@ DEFAULT_FUNCS = [
               "filter", "flatten"]),
     ("set", ["union", "intersection", "diff"]),
     ("core", ["non_zero", "non_empty", "const", "any", "all", "pairs"]),
+    ("string", ["reverse", "replace", "join", "q", "esc"]),
 ]
 
 
